@@ -262,6 +262,7 @@ pub struct World {
     pub check_prop: &'static str, // property of the running check (attribution preference)
     pub trace_log: RefCell<Option<Vec<String>>>, // verbose event log (replay -v)
     pub exact_buf_profile: bool,
+    pub saved_cfg: RefCell<Option<(crate::compat::SavedConfig, Knobs)>>,
     pub thread_tag: std::cell::Cell<u32>,
     pub last_pred: RefCell<String>,
 }
@@ -407,6 +408,7 @@ impl World {
             check_prop,
             trace_log: RefCell::new(None),
             exact_buf_profile: exact_buf,
+            saved_cfg: RefCell::new(None),
             thread_tag: std::cell::Cell::new(u32::MAX),
             last_pred: RefCell::new(String::new()),
         }
